@@ -2068,7 +2068,8 @@ def msvcrt_realloc(jitter):
     else:
         addr = winobjs.heap.alloc(jitter, args.new_size)
         size = winobjs.heap.get_size(jitter.vm, args.ptr)
-        data = jitter.vm.get_mem(args.ptr, size)
+        # Shrinking: only the part that fits is kept
+        data = jitter.vm.get_mem(args.ptr, min(size, args.new_size))
         jitter.vm.set_mem(addr, data)
     jitter.func_ret_cdecl(ret_ad, addr)
 
